@@ -1,5 +1,6 @@
 """C11 Pretty-printed JSON-like data reads back as the same data."""
 import ast
+import collections
 import enum
 import json
 
@@ -72,7 +73,8 @@ def gen_scalar(rng, width=None):
         return rng.choice([0.5, -1.25, 1e22, 1e-7, 3.0, -0.0, 2.5e-300, 123456.789])
     if k < 0.8:
         return rng.choice([True, False, None])
-    return rng.choice([[], {}])
+    # (empty containers, also of the dict classes of the collections module)
+    return rng.choice([[], {}, [], {}, collections.OrderedDict(), collections.defaultdict(list), collections.Counter()])
 
 
 def gen_threshold_list(rng):
@@ -119,6 +121,9 @@ def gen(rng, d=0, jsonmode=True):
     if r < 0.5:
         return gen_threshold_list(rng) if rng.random() < 0.7 else gen_threshold_dict(rng)
     n = rng.choice([0, 1, 2, 3, 5, 12, 30, 45, 70, 120])
+    if r < 0.6 and rng.random() < 0.3:
+        # a long list of measurements and flags: numbers and booleans only
+        return [rng.choice([0, 1, 7, 2.5, -3, True, False, 10 ** 6, 1e-3]) for _ in range(rng.choice([99, 100, 101, 102, 150]))]
     if r < 0.78:
         if rng.random() < 0.6:
             w = rng.choice([1, 2, 3, 5, 8])
